@@ -79,7 +79,12 @@ class CliScenario:
             if isinstance(a0, R) and "value" in a0.fields:
                 return a0.fields["value"]
             return None
-        if d == "get_absolute_module_from_package_for_import" and len(args) == 2:
+        if d == "get_absolute_module_from_package_for_import" and len(args) + len(kwargs) == 2 and set(kwargs) <= {"current_package", "import_node"}:
+            # (libcst.helpers.get_absolute_module_from_package_for_import(current_package, import_node): also by keyword)
+            args = ([kwargs["current_package"]] if "current_package" in kwargs and not args else list(args[:1])) + \
+                ([kwargs["import_node"]] if "import_node" in kwargs else list(args[1:2]))
+            if len(args) != 2:
+                return None
             # libcst.helpers: an absolute import names its module; a relative one is resolved against the package
             # (None when no package is given)
             n = args[1]
